@@ -25,6 +25,7 @@ CONSTANTS NReqs,        \* set of request counts, subset of {1, 2}
           HeadMs, KaMs, DiscMs,   \* sets of timer values in ms (0 = disabled), multiples of TICK
           Shuts,        \* subset of {"ready", "never"}: what poll_shutdown of the socket does
           Graces,       \* subset of BOOLEAN: a graceful-shutdown signal may fire
+          Budgets,      \* subset of {0, 99}: 0 = the socket accepts nothing until the environment makes it writable (then: everything)
           Errs,         \* subset of BOOLEAN: the handler of request 1 fails (its answer goes through send_error_response)
           HalfClosed, MaxT, KnownSigs,
           DEV_KaRefire, DEV_HeadRefire, DEV_KaRearmsShutdown   \* the two timer defects repaired by fix: commits (FALSE = repaired code)
@@ -32,13 +33,13 @@ TICK == 1000
 
 VARIABLES scn, wire, sock, rbuf, peerEof, signalled, now,
           flags, headT, kaT, shutT, sigSeen, lastConn, payload, cpl, msgs, st, cur, hp, wbuf, error,
-          result, woken, reg, pc, rs, hist, nresp,
+          result, woken, reg, pc, rs, hist, nresp, budget,
           obs         \* what the model predicts the client sees: response heads and the way the connection task ends
 vars == <<scn, wire, sock, rbuf, peerEof, signalled, now, flags, headT, kaT, shutT, sigSeen, lastConn, payload, cpl, msgs, st,
-          cur, hp, wbuf, error, result, woken, reg, pc, rs, hist, nresp, obs>>
+          cur, hp, wbuf, error, result, woken, reg, pc, rs, hist, nresp, budget, obs>>
 
 Scn == [n : NReqs, body : Bodies, pend : Pends, read : Reads, keep : Keeps, head_ms : HeadMs, ka_ms : KaMs, disc_ms : DiscMs,
-        shut : Shuts, grace : Graces, err : Errs]
+        shut : Shuts, grace : Graces, err : Errs, b0 : Budgets]
 
 UnitsOf(s) == <<"Ha", "Hb">> \o (IF s.body THEN <<"B">> ELSE <<>>) \o (IF s.n = 2 THEN <<"H2">> ELSE <<>>)
 GtOf(s) ==
@@ -67,14 +68,14 @@ Init ==
   /\ wire = UnitsOf(scn) /\ sock = <<>> /\ rbuf = <<>> /\ peerEof = FALSE /\ signalled = FALSE /\ now = 0
   /\ flags = {} /\ headT = -1 /\ kaT = -1 /\ shutT = -1 /\ sigSeen = FALSE /\ lastConn = "close"
   /\ payload = NoPl /\ cpl = 0 /\ msgs = <<>> /\ st = "none" /\ cur = 0 /\ hp = 0 /\ wbuf = <<>> /\ error = FALSE
-  /\ result = "run" /\ woken = TRUE /\ reg = {} /\ pc = "idle" /\ hist = <<>> /\ nresp = 0 /\ obs = <<>>
+  /\ result = "run" /\ woken = TRUE /\ reg = {} /\ pc = "idle" /\ hist = <<>> /\ nresp = 0 /\ obs = <<>> /\ budget = scn.b0
   /\ rs = RefInit([gt |-> GtOf(scn), pf |-> PfOf(scn), cfg |-> CfgOf(scn),
                    rej |-> [at |-> 0, off |-> 0, detect |-> 0, cls |-> "", status |-> 0, kind |-> ""], epi |-> FALSE,
-                   sock |-> [shutdown |-> scn.shut, budget |-> -1], total |-> Len(UnitsOf(scn))])
+                   sock |-> [shutdown |-> scn.shut, budget |-> (IF scn.b0 = 99 THEN -1 ELSE 0)], total |-> Len(UnitsOf(scn))])
 
 (* ------------------------------- environment ------------------------------- *)
 Quiet == pc = "idle" /\ ~woken /\ result = "run"
-DSame == UNCHANGED <<obs, scn, flags, headT, kaT, shutT, sigSeen, lastConn, payload, cpl, msgs, st, cur, wbuf, error, result, reg, pc, nresp>>
+DSame == UNCHANGED <<budget, obs, scn, flags, headT, kaT, shutT, sigSeen, lastConn, payload, cpl, msgs, st, cur, wbuf, error, result, reg, pc, nresp>>
 
 ClientSend ==
   /\ Quiet /\ wire # <<>>
@@ -98,6 +99,12 @@ Signal ==
   /\ signalled' = TRUE /\ woken' = TRUE       \* the signal future is polled, hence registered, in every poll until it fires
   /\ Emit([ev |-> "Signal"]) /\ Env([sig |-> 1])
   /\ DSame /\ UNCHANGED <<wire, sock, rbuf, peerEof, now, hp>>
+Writable ==
+  /\ Quiet /\ budget = 0 /\ wbuf # <<>>
+  /\ budget' = 99 /\ woken' = ("wr" \in reg)
+  /\ Emit([ev |-> "Writable", k |-> -1]) /\ Env([w |-> -1])
+  /\ UNCHANGED <<obs, scn, flags, headT, kaT, shutT, sigSeen, lastConn, payload, cpl, msgs, st, cur, wbuf, error, result, reg, pc, nresp,
+                 wire, sock, rbuf, peerEof, signalled, now, hp>>
 Due(d, t1) == d >= 0 /\ d <= t1
 Tick ==
   /\ Quiet /\ now < MaxT
@@ -108,7 +115,8 @@ Tick ==
   /\ DSame /\ UNCHANGED <<wire, sock, rbuf, peerEof, signalled, hp>>
 
 (* ------------------------------- one poll, block by block ------------------------------- *)
-Same == UNCHANGED <<scn, wire, peerEof, signalled, now, hist>>
+Same == UNCHANGED <<scn, wire, peerEof, signalled, now, hist, budget>>
+Blocked == budget = 0
 Resp200(i, close) == [k |-> "RH", i |-> i, status |-> 200, conn |-> (IF close THEN "close" ELSE "-")]
 Resp408 == [k |-> "RH", i |-> 0, status |-> 408, conn |-> "close"]
 
@@ -274,10 +282,11 @@ Response ==
 
 Flush ==
   /\ pc = "flush"
-  /\ IF "WRITE_DISC" \in flags THEN UNCHANGED <<wbuf, rs, nresp, obs>>
-     ELSE /\ rs' = FlushAll(wbuf, rs, nresp) /\ nresp' = nresp + Len(wbuf) /\ wbuf' = <<>> /\ obs' = obs \o ObsOf(wbuf)
+  /\ IF "WRITE_DISC" \in flags \/ wbuf = <<>> THEN UNCHANGED <<wbuf, rs, nresp, obs, reg>>
+     ELSE IF Blocked THEN /\ reg' = reg \cup {"wr"} /\ Emit([ev |-> "WritePend", n |-> 1]) /\ UNCHANGED <<wbuf, nresp, obs>>
+     ELSE /\ rs' = FlushAll(wbuf, rs, nresp) /\ nresp' = nresp + Len(wbuf) /\ wbuf' = <<>> /\ obs' = obs \o ObsOf(wbuf) /\ reg' = reg
   /\ pc' = "tail"
-  /\ Same /\ UNCHANGED <<sock, rbuf, flags, headT, kaT, shutT, sigSeen, lastConn, payload, cpl, msgs, st, cur, hp, error, result, woken, reg>>
+  /\ Same /\ UNCHANGED <<sock, rbuf, flags, headT, kaT, shutT, sigSeen, lastConn, payload, cpl, msgs, st, cur, hp, error, result, woken>>
 
 \* the tail of the normal branch of Dispatcher::poll
 Tail_ ==
@@ -289,7 +298,7 @@ Tail_ ==
      LET f0 == flags
          pl0 == payload
          f1 == IF "READ_DISC" \in f0 /\ (~HalfClosed \/ st = "none") THEN f0 \cup {"SHUTDOWN"} ELSE f0
-         idle == st = "none"        \* the write buffer is empty after Flush
+         idle == st = "none" /\ wbuf = <<>>
          f2 == IF idle /\ "FINISHED" \in f1 /\ "KEEP_ALIVE" \notin f1 /\ pl0.i = 0
                THEN (f1 \ {"FINISHED"}) \cup {"SHUTDOWN"} ELSE f1
      IN /\ flags' = f2 /\ payload' = pl0 /\ result' = result /\ rs' = rs /\ obs' = obs
@@ -300,14 +309,17 @@ Tail_ ==
 \* the LINGER branch: discard input until the peer closes or the disconnect timer ends it
 Linger ==
   /\ pc = "linger"
-  /\ rs' = FlushAll(wbuf, rs, nresp) /\ nresp' = nresp + Len(wbuf) /\ wbuf' = <<>> /\ obs' = obs \o ObsOf(wbuf)
-  /\ IF scn.disc_ms = 0 /\ shutT < 0
-     THEN /\ flags' = (flags \ {"LINGER"}) \cup {"SHUTDOWN"} /\ woken' = TRUE /\ UNCHANGED <<shutT, rbuf, sock, reg>>
-     ELSE /\ shutT' = (IF shutT >= 0 THEN shutT ELSE now + scn.disc_ms)
-          /\ rbuf' = (IF "READ_DISC" \in flags THEN rbuf ELSE <<>>) /\ sock' = (IF "READ_DISC" \in flags THEN sock ELSE <<>>)
-          /\ IF "READ_DISC" \in flags THEN UNCHANGED <<flags, woken, reg>>
-             ELSE IF peerEof THEN /\ flags' = (flags \ {"LINGER"}) \cup {"READ_DISC", "SHUTDOWN"} /\ woken' = TRUE /\ reg' = reg
-             ELSE /\ flags' = flags /\ woken' = woken /\ reg' = reg \cup {"rd"}
+  /\ IF wbuf # <<>> /\ Blocked
+     THEN \* poll_linger: the flush is pending
+          /\ reg' = reg \cup {"wr"} /\ Emit([ev |-> "WritePend", n |-> 1]) /\ UNCHANGED <<nresp, wbuf, obs, flags, woken, shutT, rbuf, sock>>
+     ELSE /\ rs' = FlushAll(wbuf, rs, nresp) /\ nresp' = nresp + Len(wbuf) /\ wbuf' = <<>> /\ obs' = obs \o ObsOf(wbuf)
+          /\ IF scn.disc_ms = 0 /\ shutT < 0
+             THEN /\ flags' = (flags \ {"LINGER"}) \cup {"SHUTDOWN"} /\ woken' = TRUE /\ UNCHANGED <<shutT, rbuf, sock, reg>>
+             ELSE /\ shutT' = (IF shutT >= 0 THEN shutT ELSE now + scn.disc_ms)
+                  /\ rbuf' = (IF "READ_DISC" \in flags THEN rbuf ELSE <<>>) /\ sock' = (IF "READ_DISC" \in flags THEN sock ELSE <<>>)
+                  /\ IF "READ_DISC" \in flags THEN UNCHANGED <<flags, woken, reg>>
+                     ELSE IF peerEof THEN /\ flags' = (flags \ {"LINGER"}) \cup {"READ_DISC", "SHUTDOWN"} /\ woken' = TRUE /\ reg' = reg
+                     ELSE /\ flags' = flags /\ woken' = woken /\ reg' = reg \cup {"rd"}
   /\ pc' = "idle"
   /\ Same /\ UNCHANGED <<headT, kaT, sigSeen, lastConn, payload, cpl, msgs, st, cur, hp, error, result>>
 
@@ -318,24 +330,30 @@ Shutdown ==
      THEN /\ result' = "done" /\ Emit([ev |-> "Done", res |-> "ok", kind |-> ""]) /\ UNCHANGED <<shutT, wbuf, nresp>>
           /\ obs' = obs \o ObsDone("ok")
      ELSE /\ shutT' = (IF shutT >= 0 \/ scn.disc_ms = 0 THEN shutT ELSE now + scn.disc_ms)     \* ensure_linger_timer
-          /\ nresp' = nresp + Len(wbuf) /\ wbuf' = <<>>
-          /\ LET r1 == FlushAll(wbuf, rs, nresp) IN
-             IF scn.shut = "ready"
-             THEN /\ result' = "done" /\ rs' = Step(r1, [ev |-> "Done", res |-> "ok", kind |-> "", t |-> now])
-                  /\ obs' = obs \o ObsOf(wbuf) \o ObsDone("ok")
-             ELSE /\ result' = result /\ rs' = r1 /\ obs' = obs \o ObsOf(wbuf)       \* poll_shutdown stays Pending
+          /\ IF wbuf # <<>> /\ Blocked
+             THEN \* ready!(poll_flush): Pending, woken when the socket becomes writable
+                  /\ Emit([ev |-> "WritePend", n |-> 1]) /\ UNCHANGED <<nresp, wbuf, result, obs>>
+             ELSE /\ nresp' = nresp + Len(wbuf) /\ wbuf' = <<>>
+                  /\ LET r1 == FlushAll(wbuf, rs, nresp) IN
+                     IF scn.shut = "ready"
+                     THEN /\ result' = "done" /\ rs' = Step(r1, [ev |-> "Done", res |-> "ok", kind |-> "", t |-> now])
+                          /\ obs' = obs \o ObsOf(wbuf) \o ObsDone("ok")
+                     ELSE /\ result' = result /\ rs' = r1 /\ obs' = obs \o ObsOf(wbuf)       \* poll_shutdown stays Pending
+  /\ reg' = (IF wbuf # <<>> /\ Blocked /\ "WRITE_DISC" \notin flags THEN reg \cup {"wr"} ELSE reg)
   /\ pc' = "idle"
-  /\ Same /\ UNCHANGED <<sock, rbuf, flags, headT, kaT, sigSeen, lastConn, payload, cpl, msgs, st, cur, hp, error, woken, reg>>
+  /\ Same /\ UNCHANGED <<sock, rbuf, flags, headT, kaT, sigSeen, lastConn, payload, cpl, msgs, st, cur, hp, error, woken>>
 
-Next == ClientSend \/ ClientEof \/ HandlerTok \/ Signal \/ Tick \/ PollStart \/ ReadAvail \/ Request \/ Response \/ Flush \/ Tail_
+Next == ClientSend \/ ClientEof \/ HandlerTok \/ Signal \/ Tick \/ Writable \/ PollStart \/ ReadAvail \/ Request \/ Response \/ Flush \/ Tail_
         \/ Linger \/ Shutdown
 Spec == Init /\ [][Next]_vars
 
 (* ------------------------------- checked ------------------------------- *)
 RefAccepts == rs.tag = "ok" \/ rs.sig \in KnownSigs
 \* design-level form of the shutdown bound: with a disconnect timeout, a connection in SHUTDOWN or LINGER always has the timer armed
+\* (lingering starts its timer only once the closing response has been flushed: poll_linger returns while the flush is pending)
 ShutdownIsTimed ==
-  (pc = "idle" /\ ~woken /\ result = "run" /\ scn.disc_ms > 0 /\ flags \cap {"SHUTDOWN", "LINGER"} # {}) => shutT >= 0
+  (pc = "idle" /\ ~woken /\ result = "run" /\ scn.disc_ms > 0
+   /\ ("SHUTDOWN" \in flags \/ ("LINGER" \in flags /\ wbuf = <<>>))) => shutT >= 0
 \* a quiescent idle keep-alive connection has its keep-alive timer armed
 IdleIsTimed ==
   (pc = "idle" /\ ~woken /\ result = "run" /\ KaOn /\ st = "none" /\ "KEEP_ALIVE" \in flags /\ "FINISHED" \in flags
@@ -346,5 +364,5 @@ NoMissedDeadline ==
 Terminal == pc = "idle" /\ (result = "done" \/ (~woken /\ now >= MaxT))
 EmitScript == Terminal => PrintT(<<"CASE", ToJson([scn |-> scn, steps |-> hist, half_closed |-> HalfClosed, pred |-> obs])>>)
 View == <<scn, wire, sock, rbuf, peerEof, signalled, now, flags, headT, kaT, shutT, sigSeen, lastConn, payload, cpl, msgs, st,
-          cur, hp, wbuf, error, result, woken, reg, pc, rs.tag>>
+          cur, hp, wbuf, error, result, woken, reg, pc, budget, rs.tag>>
 =====================================================================================
